@@ -2,6 +2,7 @@
 //   python3-vt -m lpv.replay w_edge_probe
 #include "harness.hpp"
 #include <vector>
+#include <cmath>
 #include <iostream>
 #include "libphysica/List_Manipulations.hpp"
 #include "libphysica/Utilities.hpp"
@@ -10,7 +11,7 @@
 #include "libphysica/Integration.hpp"
 #include "libphysica/Linear_Algebra.hpp"
 using namespace libphysica;
-#define TRY(name, code) { Outcome o = run_child([&]() { alarm(5); code; }); printf("%-50s -> %s | %s\n", name, kind(o), o.text.substr(0, 110).c_str()); }
+#define TRY(name, ...) { Outcome o = run_child([&]() { alarm(5); __VA_ARGS__; }); printf("%-50s -> %s | %s\n", name, kind(o), o.text.substr(0, 110).c_str()); }
 int main()
 {
 	std::vector<double> e;
@@ -41,6 +42,21 @@ int main()
 	TRY("Sample_Gauss(sigma = -1)", std::mt19937 g(1); volatile double d = Sample_Gauss(g, 0.0, -1.0); printf("%g", (double) d));
 	TRY("Sample_Uniform(1, 0)", std::mt19937 g(1); volatile double d = Sample_Uniform(g, 1.0, 0.0); printf("%g", (double) d));
 	TRY("Sample_Poisson(-1)", std::mt19937 g(1); volatile unsigned d = Sample_Poisson(g, -1.0); printf("%u", (unsigned) d));
+	TRY("Local_Minimum(x_k, x_k) / Local_Maximum(x_k, x_k) at every knot after every kind of earlier call", {
+		std::vector<double> xs = {0.0, 1.0, 2.5, 3.0, 7.0, 8.0}, fs = {1.0, 3.0, 2.0, 5.0, 4.0, 6.0};
+		int bad = 0;
+		for(double prev : {0.0, 0.5, 1.0, 2.5, 2.9, 3.0, 6.0, 7.0, 7.5, 8.0})
+			for(double prev2 : {0.0, 1.0, 2.6, 3.0, 7.0, 8.0})
+				for(size_t k = 0; k < xs.size(); k++)
+				{
+					Interpolation I(xs, fs);
+					I(prev); I(prev2);
+					double lo = I.Local_Minimum(xs[k], xs[k]);
+					I(prev2); I(prev);
+					double hi = I.Local_Maximum(xs[k], xs[k]);
+					if(std::fabs(lo - fs[k]) > 1e-12 || std::fabs(hi - fs[k]) > 1e-12) bad++;
+				}
+		printf("%d knots with a wrong degenerate extremum", bad); });
 	TRY("Find_Indices", auto i = Find_Indices(e, 1.0); printf("%zu", i.size()));
 	return 0;
 }
